@@ -5,6 +5,7 @@ import RapidModel.Generated.Consts
 import RapidProofs.Shrink
 import RapidModel.Persist
 import RapidProofs.RoundTrip
+import RapidProofs.TranslatedPersistEq
 
 namespace Rapid.C06
 
@@ -75,5 +76,40 @@ example : loadBytes (saveBytes versionBytes [] 0 []) = .ok (versionBytes, 0, [])
 /-! ### facts re-read from /repo's source on every run -/
 
 theorem version_source : Rapid.Generated.c_rapidVersion = rapidVersion := by decide
+
+/-! ### persist.go, translated from /repo on every run -/
+
+/-- **what `saveFailFile` of /repo writes into the file is the model's `saveBytes`** (the comment lines, the header
+    `version#seed`, one `0x…` line per word, joined by newlines), and it reports no error of its own -/
+theorem source_saveFailFile (version output : Bytes) (seed : UInt64) (buf : List UInt64) (fuel : Nat)
+    (ho : output.length < 2 ^ 61) (hb : buf.length < 2 ^ 62) (hf1 : output.length + 1 < fuel) (hf2 : buf.length < fuel) :
+    Rapid.Translated.saveFailFile_bytes version output seed buf fuel = .ok (saveBytes version output seed buf, false) :=
+  tr_saveFailFile version output seed buf fuel ho hb hf1 hf2
+
+/-- **`loadFailFile` of /repo, from the lines of the file on, is the model's `loadBytes`**: the same version, seed and words, and
+    an error exactly when the model has one (no data, a header that is not `version#seed`, a seed or a word that is not a number
+    of at most 64 bits) -/
+theorem source_loadFailFile (bs : Bytes) (fuel : Nat) (hl : (scanLines bs).length < 2 ^ 61) (hf : (scanLines bs).length + 1 < fuel)
+    (hlines : ∀ l ∈ scanLines bs, (trimSpace l).length < 2 ^ 61) :
+    Rapid.Translated.loadFailFile_bytes (scanLines bs) fuel = .ok (loadT (loadBytes bs)) :=
+  tr_loadFailFile bs fuel hl hf hlines
+
+/-- **the round trip for the source**: what the source's `saveFailFile` wrote, read by the source's `loadFailFile`, gives back the
+    version, the seed and every word, and no error — for every version string the format can carry, every captured output, seed
+    and bitstream (the file being shorter than 2^61 lines of fewer than 2^61 bytes) -/
+theorem source_save_load_round_trip (v : Bytes) (hv : VersionOK v) (output : Bytes) (seed : UInt64) (buf : List UInt64) (fuel : Nat)
+    (ho : output.length < 2 ^ 61) (hb : buf.length < 2 ^ 62) (hf1 : output.length + 1 < fuel) (hf2 : buf.length < fuel)
+    (hl : (scanLines (saveBytes v output seed buf)).length < 2 ^ 61) (hf : (scanLines (saveBytes v output seed buf)).length + 1 < fuel)
+    (hlines : ∀ l ∈ scanLines (saveBytes v output seed buf), (trimSpace l).length < 2 ^ 61) :
+    (Rapid.Translated.saveFailFile_bytes v output seed buf fuel >>= fun w =>
+      Rapid.Translated.loadFailFile_bytes (scanLines w.1) fuel) = .ok (v, seed, buf, false) := by
+  rw [source_saveFailFile v output seed buf fuel ho hb hf1 hf2]
+  show Rapid.Translated.loadFailFile_bytes (scanLines (saveBytes v output seed buf)) fuel = _
+  rw [source_loadFailFile _ fuel hl hf hlines, save_load_round_trip v hv output seed buf]
+  rfl
+
+/-- the hypotheses are satisfiable -/
+example : ∃ w, Rapid.Translated.saveFailFile_bytes [118, 49] [104, 105] 7 [255, 1] 10 = .ok (w, false) :=
+  ⟨_, source_saveFailFile [118, 49] [104, 105] 7 [255, 1] 10 (by decide) (by decide) (by decide) (by decide)⟩
 
 end Rapid.C06
